@@ -329,3 +329,56 @@ impl LineIndex {
         Some(st + col as usize - 1)
     }
 }
+
+
+// ---------------------------------------------------------------- token-level mutants of the corpus
+/// Keyword swaps between words that are syntactic siblings somewhere in the grammar: a text that
+/// was rejected with one spelling and is accepted with the other is an ACCEPTED text like any other.
+const KW_SWAPS: &[(&str, &str)] = &[
+    ("IN", "FROM"), ("FROM", "IN"), ("ALL", "DISTINCT"), ("DISTINCT", "ALL"), ("ASC", "DESC"), ("FIRST", "LAST"), ("LAST", "FIRST"),
+    ("CASCADE", "RESTRICT"), ("RESTRICT", "CASCADE"), ("FORWARD", "BACKWARD"), ("NEXT", "PRIOR"), ("ABSOLUTE", "RELATIVE"), ("UNION", "EXCEPT"), ("EXCEPT", "INTERSECT"),
+    ("AND", "OR"), ("LEFT", "RIGHT"), ("INNER", "CROSS"), ("ON", "USING"), ("ROWS", "RANGE"), ("RANGE", "GROUPS"), ("PRECEDING", "FOLLOWING"),
+    ("TABLE", "VIEW"), ("VIEW", "TABLE"), ("TEMPORARY", "TEMP"), ("IF", "OR"), ("WITH", "WITHOUT"), ("TO", "FROM"), ("INTO", "FROM"), ("SET", "RESET"),
+    ("LIKE", "ILIKE"), ("ANY", "ALL"), ("SOME", "ANY"), ("NULL", "TRUE"), ("TRUE", "FALSE"), ("NOT", "IS"), ("AS", "IS"), ("BY", "ON"), ("LIMIT", "OFFSET"), ("OFFSET", "LIMIT"),
+    ("GRANT", "REVOKE"), ("COMMIT", "ROLLBACK"), ("BEGIN", "START"), ("LOCAL", "SESSION"), ("GLOBAL", "SESSION"), ("BEFORE", "AFTER"), ("INSERT", "REPLACE"),
+    ("ADD", "DROP"), ("DROP", "ADD"), ("COLUMN", "CONSTRAINT"), ("PRIMARY", "FOREIGN"), ("UNIQUE", "PRIMARY"), ("KEY", "INDEX"), ("DEFAULT", "NULL"),
+];
+
+/// Deterministic single-token mutants (delete one token, duplicate one token, swap a keyword for a
+/// sibling, drop one `(..)`-free token pair) of the corpus texts with at most 40 tokens, rendered
+/// from the REAL tokenizer's tokens joined by single blanks.
+pub fn mutants(c: &Corpus, tier: &str) -> Vec<String> {
+    let d = GenericDialect {};
+    let cap = if tier == "thorough" { usize::MAX } else { 120_000 };
+    let mut seen: BTreeSet<String> = c.literals.iter().cloned().collect();
+    let mut out = vec![];
+    let mut push = |toks: Vec<String>, out: &mut Vec<String>| {
+        let s = toks.join(" ");
+        if !s.is_empty() && seen.insert(s.clone()) { out.push(s); }
+    };
+    // stride so that the cap spreads over the whole corpus instead of its head
+    let n = c.literals.len().max(1);
+    let stride = if tier == "thorough" { 1 } else { 3 };
+    for (li, s) in c.literals.iter().enumerate() {
+        if out.len() >= cap { break; }
+        if s.len() > 400 { continue; }
+        let toks: Vec<String> = match tokenize(&d, false, s) {
+            G::Val(Ok(t)) => t.iter().filter(|t| !is_ws(&t.token) && t.token != Token::EOF).map(|t| t.token.to_string()).collect(),
+            _ => continue,
+        };
+        if toks.len() < 2 || toks.len() > 40 { continue; }
+        let _ = n;
+        for i in 0..toks.len() {
+            // all deletions for every `stride`-th text, every third position otherwise
+            if stride == 1 || li % stride == 0 || i % 3 == li % 3 {
+                let mut t = toks.clone(); t.remove(i); push(t, &mut out);
+            }
+            let up = toks[i].to_ascii_uppercase();
+            for (a, b) in KW_SWAPS {
+                if up == *a { let mut t = toks.clone(); t[i] = b.to_string(); push(t, &mut out); }
+            }
+            if li % 5 == 0 && i % 4 == 0 { let mut t = toks.clone(); t.insert(i, toks[i].clone()); push(t, &mut out); }
+        }
+    }
+    out
+}
